@@ -28,6 +28,16 @@ pub fn unit_models(rng: &mut ChaCha8Rng, count: usize, moderate: bool) -> Vec<(L
                     v.push((LmSpec::from_rooc(&lm), "from-linearizer"));
                 }
             }
+        } else if rng.gen_range(0..8) == 0 {
+            // a G-lp model sent through the compiler first (bound tightening, row normalisation)
+            let cont = rng.gen_bool(0.7);
+            let spec = gen_lm(rng, &LpGenOpts { continuous_only: cont, moderate_coeffs: moderate, max_vars: 5, max_rows: 6, ..Default::default() });
+            if spec.sense != "satisfy" || true {
+                let (mb, _) = crate::props::c20::spec_to_m(&spec).to_builder();
+                if let Ok(Ok(lm)) = std::panic::catch_unwind(std::panic::AssertUnwindSafe(|| mb.linearize())) {
+                    v.push((LmSpec::from_rooc(&lm), "g-lp-through-linearizer"));
+                }
+            }
         } else {
             let cont = rng.gen_bool(0.5);
             let spec = gen_lm(
@@ -81,7 +91,7 @@ impl Driver for C04 {
         5.0
     }
     fn units(&self, tier: Tier) -> usize {
-        tier.pick(4000, 80000)
+        tier.pick(16000, 160000)
     }
     fn run_unit(&self, ctx: &Ctx, out: &mut UnitOut, start: usize, only: Option<usize>) {
         let mut rng = unit_rng(ctx, "C04", out.unit);
@@ -153,7 +163,7 @@ impl Driver for C04 {
         "linear/MILP models (G-lp: <=6 variables, <=6 rows, planted feasible/tight/violated rows, empty and duplicate rows, free/bounded/half-bounded variables, coefficients from small integers, halves and 0.01..100 so that 1e-6 is attainable in double precision, min/max/satisfy, offsets; plus linear models produced by the real Linearizer from G-model) x the five built-in entry points (solve_milp_lp_problem, auto_solver, solve_real_lp_problem_micro_lp, solve_real_lp_problem_clarabel, solve_real_lp_problem_slow_simplex); every returned solution is re-checked exactly against the model it came from: one value per variable, bounds/0-1/integrality and rows within 1e-6 (scaled), value() == c.x+offset, named-row activities == lhs; each call runs in a sacrificial worker under a 5 s CPU budget; distinct non-trivial = distinct (solver, model) pairs that returned a solution".into()
     }
     fn thresholds(&self, tier: Tier) -> Thresholds {
-        let s = tier.pick(10, 200);
+        let s = tier.pick(40, 400);
         Thresholds {
             min_tags: vec![
                 ("certified", 2000 * s),
@@ -207,6 +217,20 @@ fn precondition_label(spec: &LmSpec) -> &'static str {
     }
 }
 
+/// Structural precondition of a known finding: a continuous variable whose interval is narrower than
+/// 1e-6 (relative) without being a point - what bound tightening leaves around a point that
+/// equality rows determine.
+pub fn near_degenerate_interval(spec: &LmSpec) -> bool {
+    spec.vars.iter().any(|(_, t)| {
+        let (lo, hi) = match t {
+            VSpec::Real(Some(lo), Some(hi)) => (*lo, *hi),
+            VSpec::NonNeg(lo, Some(hi)) => (*lo, *hi),
+            _ => return false,
+        };
+        hi > lo && hi - lo < 1e-6 * lo.abs().max(hi.abs()).max(1.0)
+    })
+}
+
 /// Structural precondition of a known finding: the model carries a finite number of magnitude >= 1e100.
 fn astronomical(spec: &LmSpec) -> bool {
     let big = |f: f64| f.is_finite() && f.abs() >= 1e100;
@@ -234,7 +258,7 @@ impl Driver for C05 {
         5.0
     }
     fn units(&self, tier: Tier) -> usize {
-        tier.pick(4000, 80000)
+        tier.pick(16000, 160000)
     }
     fn run_unit(&self, ctx: &Ctx, out: &mut UnitOut, start: usize, only: Option<usize>) {
         let mut rng = unit_rng(ctx, "C05", out.unit);
@@ -355,6 +379,12 @@ impl Driver for C05 {
                         if tkind == "infeasible" {
                             out.tag(&format!("{solver}:agrees:infeasible"));
                             out.nontrivial(hash_str(&format!("{solver}|{}", serde_json::to_string(spec).unwrap())));
+                        } else if near_degenerate_interval(spec) && solver != "tableau" && solver != "clarabel" {
+                            out.violation(
+                                "microlp:Infeasible-on-feasible-model(variable interval narrower than 1e-6)",
+                                &format!("{solver} reports Infeasible but the model is {tkind}; a continuous variable has an interval narrower than 1e-6"),
+                                detail(json!("Infeasible")),
+                            );
                         } else {
                             out.violation(
                                 &format!("{solver}:Infeasible-on-{tkind}({pre})"),
@@ -422,7 +452,7 @@ impl Driver for C05 {
         "same models as C04 without extreme coefficients; every verdict of every accepting entry point is compared with the certified exact rational LP/MILP oracle: optimum within 1e-6 relative, Infeasible only with a Farkas certificate, Unbounded only with a feasible point and an improving ray; any other error kind, a panic, or exhausting the 5 s CPU budget is 'no verdict' for the microlp-based and tableau solvers (Clarabel may decline numerically); distinct non-trivial = distinct (solver, model) pairs whose verdict was confirmed".into()
     }
     fn thresholds(&self, tier: Tier) -> Thresholds {
-        let s = tier.pick(10, 200);
+        let s = tier.pick(40, 400);
         Thresholds {
             min_tags: vec![
                 ("truth:optimal", 3000 * s),
@@ -434,6 +464,7 @@ impl Driver for C05 {
                 ("clarabel:agrees:optimal", 100 * s),
                 ("microlp-real:agrees:optimal", 100 * s),
                 ("origin:from-linearizer", 300 * s),
+                ("origin:g-lp-through-linearizer", 100 * s),
             ],
             min_nontrivial: 2000 * s,
         }
